@@ -347,9 +347,9 @@ def col_canon(ctx):
 REF_INITS = ("pending", "loaded", "rel_expired", "all_expired", "loaded_none")
 
 
-def ref_build(ah, init):
+def ref_build(ah, init, eq=False):
     ctx = Ctx()
-    w = ctx.w = world("m2o", None, "bp", m2o_active_history=ah)
+    w = ctx.w = world("m2o", None, "bp", m2o_active_history=ah, value_eq=eq)
     fk = {"pending": None, "loaded_none": "NULL"}.get(init, "1")
     rows = "insert into p (id, name) values (1, 'p1'); insert into p (id, name) values (2, 'p2')"
     if init != "pending":
@@ -489,19 +489,21 @@ def ref_canon(ctx):
 # ================================================================== coll world
 
 COLL_KINDS = ("o2m-list", "o2m-set", "o2m-dict", "m2m-list")
-COLL_INITS = ("pending", "loaded", "expired")
+COLL_INITS = ("pending", "loaded", "loaded1", "expired")  # loaded1: a single member (set.pop() is then deterministic)
 CH = ("c1", "c2", "c3")
 
 
-def coll_world(kc):
+def coll_world(kc, eq=False):
     kind, coll = kc.split("-")
-    return world(kind, coll, "bp")
+    # value-equal members: unidirectional, because a backref removes from the
+    # other side's list with list.remove(), i.e. by ==
+    return world(kind, coll, "uni" if eq else "bp", value_eq=eq)
 
 
-def coll_build(kc, init):
+def coll_build(kc, init, eq=False):
     ctx = Ctx()
-    w = ctx.w = coll_world(kc)
-    pairs = [("p1", "c1"), ("p1", "c2")]
+    w = ctx.w = coll_world(kc, eq)
+    pairs = [("p1", "c1")] if init == "loaded1" else [("p1", "c1"), ("p1", "c2")]
     if init == "pending":
         ctx.engine = w.memory_engine()
         ctx.sess = Session(ctx.engine, autoflush=False)
@@ -510,42 +512,44 @@ def coll_build(kc, init):
     else:
         ctx.engine = w.memory_engine(w.rows_sql(["p1"], list(CH), pairs))
         ctx.sess = Session(ctx.engine, autoflush=False)
-        ctx.objs = w.persistent_universe(ctx.sess, ["p1"], list(CH), pairs, loaded=(init == "loaded"))
+        ctx.objs = w.persistent_universe(ctx.sess, ["p1"], list(CH), pairs, loaded=(init in ("loaded", "loaded1")))
     ctx.o = ctx.objs["p1"]
     ctx.log = sqllog(w, ctx.engine)
     return ctx
 
 
-def coll_mutators(kc, tier):
+def coll_mutators(kc, tier, eq=False):
+    """every mutator of the collection type; each one that fires a remove /
+    append event through its own code path (pop, popitem, setdefault, del,
+    discard ...) is in BOTH tiers so that it also occurs as the first mutation
+    after a load and after a flush; thorough adds argument variety"""
     shape = kc.split("-")[1]
     full = tier == "thorough"
     ms = []
     if shape == "list":
         for e in CH:
-            ms += [["append", e], ["remove", e]]
+            ms += [["append", e]]
+            if not eq:
+                ms += [["remove", e]]  # list.remove goes by ==: meaningless with value-equal members
             if full:
                 ms += [["insert", 0, e], ["setitem", 0, e]]
-        ms += [["pop"], ["clear"], ["extend", ["c3", "c1"]]]
+        ms += [["pop"], ["pop", 0], ["delitem", 0], ["clear"], ["extend", ["c3", "c1"]], ["setitem", 0, "c3"]]
         if full:
-            ms += [["pop", 0], ["delitem", 0], ["setslice", [0, 1, None], ["c3"]], ["delslice", [0, 1, None]]]
+            ms += [["setslice", [0, 1, None], ["c3"]], ["delslice", [0, 1, None]]]
         vals = [[], ["c1"], ["c3"], ["c2", "c1"], ["c1", "c3"], ["c1", "c2", "c3"]]
     elif shape == "set":
         for e in CH:
-            ms += [["add", e], ["remove", e]]
-            if full:
-                ms += [["discard", e]]
-        ms += [["clear"], ["update", ["c1", "c3"]]]
+            ms += [["add", e], ["remove", e], ["discard", e]]
+        ms += [["pop"], ["clear"], ["update", ["c1", "c3"]], ["difference_update", ["c1", "c3"]]]
         if full:
-            ms += [["difference_update", ["c1", "c3"]], ["symmetric_difference_update", ["c2", "c3"]], ["intersection_update", ["c1"]]]
+            ms += [["symmetric_difference_update", ["c2", "c3"]], ["intersection_update", ["c1"]]]
         vals = [[], ["c1"], ["c3"], ["c1", "c3"], ["c1", "c2", "c3"]]
     else:
         for e in CH:
-            ms += [["setitem", e, e], ["delitem", e]]
-            if full:
-                ms += [["pop", e], ["setdefault", e, e]]
-        ms += [["clear"], ["update", {"c1": "c1", "c3": "c3"}]]
-        if full:
-            ms += [["popitem"]]
+            ms += [["setitem", e, e], ["delitem", e], ["pop", e], ["popd", e]]
+            if e != "c2" or full:
+                ms += [["setdefault", e, e]]
+        ms += [["popitem"], ["clear"], ["update", {"c1": "c1", "c3": "c3"}]]
         vals = [{}, {"c1": "c1"}, {"c3": "c3"}, {"c1": "c1", "c3": "c3"}, {"c1": "c1", "c2": "c2", "c3": "c3"}]
     return [["coll", m] for m in ms] + [["assign", v] for v in vals]
 
@@ -554,11 +558,11 @@ class CollModel:
     def __init__(self, kc, init):
         self.kind, self.shape = kc.split("-")
         self.status = "pending" if init == "pending" else "persistent"
-        row = [] if init == "pending" else ["c1", "c2"]
+        row = [] if init == "pending" else ["c1"] if init == "loaded1" else ["c1", "c2"]
         self.rel = {c: ("p1" if c in row else None) for c in CH}  # intended parent / membership: last write wins
         self.rowrel = dict(self.rel)  # what the database holds
-        self.child_known = {c: init == "loaded" or init == "pending" for c in CH}
-        if init == "loaded":
+        self.child_known = {c: init in ("loaded", "loaded1", "pending") for c in CH}
+        if init in ("loaded", "loaded1"):
             self.m = AttrHist("coll", row, loaded=True, cur=self._mk(row))
         else:
             self.m = AttrHist("coll", row, loaded=False)
@@ -703,13 +707,18 @@ class CollModel:
         return (self.status, tuple(sorted(self.rel.items())), tuple(sorted(self.rowrel.items())), m.loaded, render(m.cur) if m.cur is not None else None, m.dirty, str(m.orig), tuple(self.pend_add), tuple(self.pend_del), tuple(sorted(self.child_known.items())))
 
 
-def coll_enabled_factory(kc, tier):
-    muts = coll_mutators(kc, tier)
+def coll_enabled_factory(kc, tier, eq=False):
+    muts = coll_mutators(kc, tier, eq)
     kind = kc.split("-")[0]
 
     def enabled(ms):
         ops = []
         for op in muts:
+            if ms.shape == "set" and op[0] == "coll" and op[1][0] == "pop":
+                t = ms.copy()
+                t.load()
+                if len(t.m.cur) > 1:
+                    continue  # which member a set of objects pops depends on id(): not deterministic
             if ms.shape == "list":
                 t = ms.copy()
                 try:
@@ -722,6 +731,8 @@ def coll_enabled_factory(kc, tier):
             ops.append(op)
         for c in CH:
             inside = ms.rel[c] == "p1"
+            if eq:
+                continue  # unidirectional world: no child side
             if not inside:
                 ops.append(["bset", c, "p1"])
             elif ms.child_known[c]:
@@ -824,11 +835,11 @@ def make_step(rec, shard, tier):
         canon = col_canon
         attrs = lambda ctx: [(ctx.o, "x"), (ctx.o, "y")]  # noqa: E731
     elif sub == "ref":
-        build = lambda: ref_build(shard[1], shard[2])  # noqa: E731
+        build = lambda: ref_build(shard[1], shard[2], len(shard) > 3)  # noqa: E731
         apply_impl = ref_apply
         canon = ref_canon
     else:
-        build = lambda: coll_build(shard[1], shard[2])  # noqa: E731
+        build = lambda: coll_build(shard[1], shard[2], len(shard) > 3)  # noqa: E731
         apply_impl = lambda ctx, op: coll_apply_impl(ctx, shard[1], op)  # noqa: E731
         canon = lambda ctx: coll_canon(ctx, shard[1])  # noqa: E731
 
@@ -1013,6 +1024,8 @@ def make_step(rec, shard, tier):
                 choice = None
                 if op[0] == "coll" and op[1][0] == "popitem" and exc is None:
                     choice = ret[0]
+                elif op[0] == "coll" and op[1] == ["pop"] and shard[1].endswith("-set") and exc is None:
+                    choice = _nm(ret)
                 m2.apply(op, choice)
             else:
                 m2.apply(op)
@@ -1072,7 +1085,7 @@ def make_step(rec, shard, tier):
 
 def enabled_for(shard, tier):
     if shard[0] == "coll":
-        return coll_enabled_factory(shard[1], tier)
+        return coll_enabled_factory(shard[1], tier, len(shard) > 3)
     return lambda ms: ms.enabled()
 
 
@@ -1096,6 +1109,10 @@ def shards(tier, seed):
     out = [["col", i] for i in COL_INITS]
     out += [["ref", ah, i] for ah in (False, True) for i in REF_INITS]
     out += [["coll", kc, i] for kc in COLL_KINDS for i in COLL_INITS]
+    # the same worlds with value-based __eq__/__hash__ on the mapped classes:
+    # distinct rows compare equal, references must still be told apart
+    out += [["ref", ah, i, "eq"] for ah in (False, True) for i in REF_INITS]
+    out += [["coll", "o2m-list", i, "eq"] for i in COLL_INITS]
     return out
 
 
